@@ -8,7 +8,7 @@ def _stage(n, tiers):
 
 QUICK_POOLS = (1, 2, 4, 16)
 MIRI = ("-Zmiri-disable-isolation -Zmiri-tree-borrows -Zmiri-permissive-provenance -Zmiri-ignore-leaks "
-        "-Zmiri-many-seeds=0..16")
+        "-Zmiri-many-seeds=0..8")
 PROP = {
     "level": "exploration",
     "stages": [_stage(n, ("quick", "thorough") if n in QUICK_POOLS else ("thorough",)) for n in range(1, 17)] + [
